@@ -146,6 +146,7 @@ def run(ctx: Ctx) -> int:
 
     # ---------------- C08.c ---------------------------------------------------
     gd = ctx.func("_core:ArgumentParser.get_defaults")
+    ctx.expect_locals(gd, ["cfg", "action"])
     stores = [s for s in walk_local(gd) if isinstance(s, ast.Assign) and isinstance(s.targets[0], ast.Subscript) and root_name(s.targets[0].value) == "cfg" and any(isinstance(n, ast.Attribute) and n.attr == "default" for n in ast.walk(s.value))]
     ctx.need(stores, "get_defaults: cfg[action.dest] = <copy>(action.default)")
     for s in stores:
@@ -185,6 +186,7 @@ def run(ctx: Ctx) -> int:
 
     # ---------------- C08.d: no live default instances ----------------------------
     nd = ctx.func("_typehints:ActionTypeHint.normalize_default")
+    ctx.expect_locals(nd, ["default", "default_type", "is_subclass_type"])
     rz = [r for r in walk_local(nd) if isinstance(r, ast.Raise)]
     ok = bool(rz)
     if ok:
